@@ -35,6 +35,18 @@ class BodyBase(BaseException):
     """custom BaseException subclass raised by the simulated caller"""
 
 
+class FalsyError(Exception):
+    """an exception object that is falsy (an aggregate of zero problems)"""
+
+    def __len__(self):
+        return 0
+
+
+class FalsyBase(BaseException):
+    def __bool__(self):
+        return False
+
+
 def _exc_makers(lib):
     """name -> factory of the exception object the simulated caller raises.  Besides
     the classes, the *value* matters to an implementation that looks inside: an exit
@@ -53,6 +65,7 @@ def _exc_makers(lib):
             "FileNotFoundError": lambda: FileNotFoundError(errno.ENOENT, "body-raise"),
             "UnicodeEncodeError": lambda: UnicodeEncodeError("ascii", "\u3042", 0, 1, "body-raise"),
             "UnicodeDecodeError": lambda: UnicodeDecodeError("utf-8", b"\xff", 0, 1, "body-raise"),
+            "FalsyError": lambda: FalsyError("body-raise"), "FalsyBase": lambda: FalsyBase("body-raise"),
             "CancelMutation": lambda: lib.simfile.CancelMutation("body-raise")}
 
 
@@ -61,7 +74,7 @@ def _exc_makers(lib):
 EXC_NAMES = ["ValueError", "KeyError", "BodyError", "KeyboardInterrupt", "SystemExit", "SystemExit0",
              "SystemExitNone", "SystemExit1", "BodyBase", "StopIteration", "RuntimeError",
              "GeneratorExit", "OSError", "FileNotFoundError", "UnicodeEncodeError",
-             "UnicodeDecodeError", "CancelMutation"]
+             "UnicodeDecodeError", "FalsyError", "FalsyBase", "CancelMutation"]
 ERRNO_NAMES = ["EIO", "ENOSPC", "EACCES"]
 
 
@@ -163,6 +176,9 @@ def generate(prop, rng, run, tier):
         bak = out                      # refused
     else:
         bak = ""                       # falsy: no backup
+    if bak and bak not in (inp, out) and rng.random() < 0.06:
+        # a distinct file whose name is contained in the input's name
+        bak = rng.choice([inp[:-1], inp[:inp.rfind(".")]])
     if prop == "C06" and rng.random() < 0.08:
         # a destination whose parent directory does not exist: the save fails at the open
         # for writing - and a body that raises must still leave the whole tree untouched
